@@ -356,8 +356,11 @@ class Skeleton:
                   "split", "splitn", "position", "find", "chunks", "windows", "eq", "ne", "cmp", "partial_cmp", "to_vec", "binary_search")
 
     def direct_inspections(self, exempt=("take_while", "satisfy")):
-        """Calls that look at the bytes of an input-derived slice outside the parser primitives. The skeleton describes the
-        grammar exactly only if input is consumed solely through parser applications; a peek makes it inexact."""
+        """Calls that look at the bytes of an input-derived *suffix* (the input itself or a remainder) outside the parser
+        primitives: anything but a parser application, `len()` (span arithmetic / length guards, judged by C12-I) and
+        slicing. The skeleton describes the grammar exactly only if input is consumed solely through parser
+        applications; a peek - `first()`, `iter()`, `from_utf8(rest)`, `starts_with`, ... - makes it inexact and lets a
+        verdict depend on bytes behind the unit."""
         out = {}
         for path, f in sorted(self.fns.items()):
             name = path.split("::")[-1]
@@ -365,10 +368,15 @@ class Skeleton:
                 continue
             for x in f["exits"]:
                 for e in x.effects:
-                    if e[0] == "call" and e[1].startswith(("core::slice::", "core::iter::", "core::cmp::", "core::array::")) and e[1].split("::")[-1] in self.INSPECTORS and e[2]:
-                        a = e[2][0]
-                        if self._is_input_slice(a, f, x):
-                            out[(path, e[3])] = (path, e[1], e[3], show_term(a))
+                    if e[0] == "call" and e[2]:
+                        if self.app(("call",) + tuple(e[1:]), f["ps"]) is not None:
+                            continue
+                        nm = e[1].split("::")[-1]
+                        if nm in ("len",) or e[1] in self.fns:
+                            continue
+                        for a in e[2]:
+                            if self._is_input_slice(a, f, x):
+                                out[(path, e[3])] = (path, e[1], e[3], show_term(a))
                     if e[0] == "index" and self._is_input_slice(e[1], f, x):
                         k = e[2]
                         if k[0] == "lit":   # input[k]: byte access
